@@ -9,6 +9,7 @@
 package stack
 
 import (
+	"strings"
 	"bytes"
 	"context"
 	"encoding/json"
@@ -48,6 +49,8 @@ type Scenario struct {
 	// reading blocks the library's Write at once, whereas tiny TCP socket buffers on loopback (MSS 64 KB) run into the kernel's
 	// window-probing timers and stall a connection for minutes - an artefact of the test bed, not of the library
 	Pipe bool `json:"pipe"`
+	// Buf: size of the handlers' and the initiator's queues (0 = 10, as in the repository's tests)
+	Buf int `json:"buf"`
 }
 
 // ---- hook log ----
@@ -291,7 +294,11 @@ func runScenario(sc *Scenario) (res result) {
 	var accSess *session.Session
 	var accH interface{}
 	var accMu sync.Mutex
-	factory := simplefixgo.NewAcceptorHandlerFactory(fixgen.FieldMsgType, 10)
+	qsize := sc.Buf
+	if qsize == 0 {
+		qsize = 10
+	}
+	factory := simplefixgo.NewAcceptorHandlerFactory(fixgen.FieldMsgType, qsize)
 	accStore := memory.NewStorage()
 	acceptor := simplefixgo.NewAcceptor(accListener, factory, 5*time.Second, func(h simplefixgo.AcceptorHandler) {
 		register(h, sc.ID+"/acc", "acceptor", start)
@@ -367,9 +374,9 @@ func runScenario(sc *Scenario) (res result) {
 		acceptor.Close()
 		return result{fail: "proxy: " + err.Error()}
 	}
-	iniH := simplefixgo.NewInitiatorHandler(context.Background(), fixgen.FieldMsgType, 10)
+	iniH := simplefixgo.NewInitiatorHandler(context.Background(), fixgen.FieldMsgType, qsize)
 	register(iniH, sc.ID+"/ini", "initiator", start)
-	client := simplefixgo.NewInitiator(conn, iniH, 10, 5*time.Second)
+	client := simplefixgo.NewInitiator(conn, iniH, qsize, 5*time.Second)
 	iniStore := memory.NewStorage()
 	iniSess, err := session.NewInitiatorSession(iniH, sharedOpts([]string{"0"}), &session.LogonSettings{
 		TargetCompID: "ACC", SenderCompID: "INI", HeartBtInt: sc.Hb, EncryptMethod: "0", Username: "user", Password: "good",
@@ -428,6 +435,26 @@ func runScenario(sc *Scenario) (res result) {
 					okSends["acc"]++
 					okMu.Unlock()
 				}
+			}
+		case "ini-send-big", "acc-send-big": // one message larger than any buffer of the pipeline, from a goroutine of its own
+			side, sn := "ini", iniSess
+			if st.Op == "acc-send-big" {
+				accMu.Lock()
+				side, sn = "acc", accSess
+				accMu.Unlock()
+			}
+			if sn != nil {
+				n++
+				k := n
+				bursts.Add(1)
+				go func() {
+					defer bursts.Done()
+					if sn.Send(fixgen.NewMarketDataRequest().SetMDReqID(fmt.Sprintf("%sBIG%d-%s", side, k, strings.Repeat("x", 5000)))) == nil {
+						okMu.Lock()
+						okSends[side]++
+						okMu.Unlock()
+					}
+				}()
 			}
 		case "ini-askresend": // the application asks the peer to send everything again (as tests/initiator.go does)
 			_ = iniSess.Send(fixgen.ResendRequest{}.New().SetFieldBeginSeqNo(1).SetFieldEndSeqNo(0))
